@@ -87,6 +87,7 @@ def gen_world(rng, profile, tier, no_twins=False):
         "short_names": rng.random() < 0.15,
         "hostile_fields": rng.random() < 0.12,
         "union_nest": rng.random() < 0.15,
+        "long_refs": rng.random() < 0.3,
         "zero_static": rng.random() < 0.25,
         "np_dims": rng.random() < 0.15,
         "kill": rng.random() < 0.5,
